@@ -90,6 +90,14 @@ theorem ceilDiv_le_iff (x c w : Nat) (hc : 0 < c) : ceilDiv x c ≤ w ↔ x ≤ 
   rw [← Nat.lt_succ_iff, Nat.div_lt_iff_lt_mul hc, Nat.succ_mul]
   omega
 
+theorem blockHeight_eq (ph : Nat) : blockHeight ph = ceilDiv ph 2 := by
+  unfold blockHeight ceilDiv
+  rcases Nat.mod_two_eq_zero_or_one ph with h | h
+  · have : (ph % 2 != 0) = false := by simp [h]
+    rw [this]; simp only [Bool.false_eq_true, if_false]; omega
+  · have : (ph % 2 != 0) = true := by simp [h]
+    rw [this]; simp only [if_true]; omega
+
 /-! ### Closed form for the two-arm switch `sfX <= sfY` / `sfX > sfY` -/
 
 /-- The arm structure after the F51 repair. -/
